@@ -1,7 +1,7 @@
 # C07 - repacketizer, pad, unpad (DESIGN.md section 2, C07)
 ASSUMPTIONS = ['extension calls are contract stubs valid for padding-free repacketizer slots (asserted at every call); extensions are C16',
                'oracle for acceptance/frames = the RFC 6716 framing model of C06']
-OUTSIDE = 'more than 3 (quick) / 5 (thorough) frames per out_range call, frame payloads longer than 2 bytes (only moved), packets with extension-carrying padding, decoded-audio equality'
+OUTSIDE = 'more than 3 (quick) / 5 (thorough) frames per out_range call, frame payloads longer than 2 bytes (only moved), the real extension parser/generator behind the contract stubs of H5, decoded-audio equality'
 UN = ['opus_packet_parse_impl:%d', 'rfc_parse:%d']
 
 def obligations():
@@ -40,4 +40,14 @@ def obligations():
                         memwords=3, functions=['opus_multistream_packet_unpad', 'opus_repacketizer_out_range_impl'] + ([] if unpad_only else ['opus_multistream_packet_pad']),
                         tier=tier, budget=(900 if tier == 'quick' else 1500),
                         bounds='any 2-stream packet of exactly %d bytes, at most %d frames per stream%s; new_len = len..len+%d' % (ln, cm, '' if unpad_only else ', last stream without a padding flag', 0 if unpad_only else xp)))
+    # out_range with extension-carrying padding (shared harness with C16-H3): result <= maxlen, exact refusal, frames preserved, extension area placement
+    for f, ol, pat, bg, en, tier in ((3, 24, (1, 1, 1, 0), 0, 3, 'quick'), (3, 24, (0, 2, 1, 0), 1, 2, 'quick'), (4, 300, (1, 0, 2, 1), 1, 4, 'thorough')):
+        L.append(Ob('H5.out_range_with_extensions.f%d.out%d.ext%s.range%d_%d' % (f, ol, ''.join(map(str, pat[:f])), bg, en), 'C16_carriage.c', ['src/repacketizer.c', 'src/opus.c'],
+                    ['-DF=%d' % f, '-DOL=%d' % ol, '-DBEGIN=%d' % bg, '-DEND=%d' % en] + ['-DN%d=%d' % (i, pat[i]) for i in range(4)], unwind=1, memwords=8,
+                    unwindset=['harness:%d' % (max(ol + 2, 2 * f + 2)), 'slot_of:%d' % (f + 1), 'opus_packet_extensions_parse:3', 'opus_packet_extensions_generate:%d' % (2 * f + 1),
+                               'opus_repacketizer_out_range_impl:%d' % (max(f, 3) + ol // 255 + 2), 'opus_repacketizer_out_range_impl@ones_end:%d' % (ol + 2),
+                               'opus_repacketizer_out_range_impl@ext_count<nb_extensions:2', 'opus_packet_parse_impl:%d' % (max(f + 2, ol // 255 + 3))],
+                    functions=['opus_repacketizer_out_range_impl', 'opus_packet_parse_impl'], budget=900, tier=tier,
+                    stubs=['opus_packet_extensions_count/_parse/_generate: contract stubs over an abstract extension list (coded size E any value)'],
+                    bounds='%d single-frame slots of 0..1 bytes with %s extensions in their padding, range [%d,%d), any maxlen 0..%d, any coded extension size, both framings' % (f, pat[:f], bg, en, ol)))
     return L
